@@ -8,6 +8,7 @@ import HkModel.Drive.ApiAuth
 import HkModel.Drive.Mcp
 import HkModel.Drive.Limits
 import HkModel.Drive.Fidelity
+import HkModel.Drive.Reload
 /-! `hkdriver <mode>`: reads protocol lines on stdin, answers one line per input line. -/
 open Hk
 
@@ -56,6 +57,7 @@ def main (args : List String) : IO UInt32 := do
   | ["mcp"] => runPure DriveMcp.processLine
   | ["limits"] => runPure DriveLimits.processLine
   | ["fidelity"] => runPure DriveFidelity.processLine
+  | ["reload"] => runPure DriveReload.processLine
   | ["auth"] =>
     let st ← loopAuth stdin stdout {}
     stdout.putStrLn ("SUMMARY {\"steps\":" ++ toString st.n ++ ",\"not_ok\":" ++ toString st.bad ++ "}")
